@@ -125,6 +125,173 @@ fn sample_main<P: Property>(n: usize) -> i32 {
     0
 }
 
+
+// ------------------------------------------------------------------------------------
+// coverage-guided campaigns (thorough tier) and replay of their crash files
+
+/// fuzz target serving a property, and (for the shared `hist` target) the selector value
+fn fuzz_target_of(id: &str) -> Option<(&'static str, Option<u8>)> {
+    Some(match id {
+        "C01" => ("tx_struct", None),
+        "C02" => ("rx_struct", None),
+        "C03" => ("chunking", None),
+        "C04" => ("rx_raw", None),
+        "C06" => ("hist", Some(0)),
+        "C07" => ("hist", Some(1)),
+        "C08" => ("hist", Some(2)),
+        "C09" => ("hist", Some(3)),
+        "C10" => ("hist", Some(4)),
+        "C13" => ("hist", Some(5)),
+        "C15" => ("hist", Some(6)),
+        _ => return None,
+    })
+}
+
+fn run_fuzz_input(target: &str, data: &[u8]) -> Option<(Failure, String)> {
+    use vharness::fuzzing::*;
+    match target {
+        "rx_raw" => fuzz_rx_raw(data),
+        "tx_struct" => fuzz_struct::<props::c01::C01>(data),
+        "rx_struct" => fuzz_struct::<props::c02::C02>(data),
+        "chunking" => fuzz_struct::<props::c03::C03>(data),
+        "hist" => fuzz_hist(data),
+        _ => None,
+    }
+}
+
+fn replay_bin_main(id: &str, path: &str) -> i32 {
+    let data = std::fs::read(path).unwrap_or_else(|e| {
+        eprintln!("cannot read {path}: {e}");
+        std::process::exit(2)
+    });
+    let name = std::path::Path::new(path).file_name().and_then(|s| s.to_str()).unwrap_or("");
+    let target = name.strip_prefix("fuzz-").and_then(|r| r.split('-').next()).map(|s| s.to_string())
+        .or_else(|| fuzz_target_of(id).map(|t| t.0.to_string()))
+        .unwrap_or_default();
+    if let Some((_, Some(sel))) = fuzz_target_of(id) {
+        std::env::set_var("VERIF_HIST_SEL", sel.to_string());
+    }
+    let d2 = data.clone();
+    let t2 = target.clone();
+    let (r, _) = on_fresh_thread(move || run_fuzz_input(&t2, &d2));
+    match r {
+        Some((f, case)) => {
+            println!("[{}] fuzz input ({target}) still fails: {} — {}\n   case: {}", profile_name(), f.sig, f.msg, &case[..case.len().min(600)]);
+            println!("VIOLATION property={id} replay={path}");
+            1
+        }
+        None => {
+            println!("[{}] fuzz input ({target}) passes", profile_name());
+            0
+        }
+    }
+}
+
+struct FuzzStats {
+    target: String,
+    jobs: usize,
+    seconds: u64,
+    execs: u64,
+    crashes: Vec<String>,
+    corpus_files: usize,
+    features: u64,
+}
+
+/// Builds the target and runs `jobs` libFuzzer processes for `seconds` each (half of them
+/// from the committed seeds, half from an empty corpus). Crash files are copied to
+/// <root>/replays/<id>/fuzz-<target>-<n>.bin. Err = infrastructure problem.
+fn fuzz_campaign(verif: &str, id: &str, seed: u64, seconds: u64, jobs: usize) -> Result<Option<FuzzStats>, String> {
+    let Some((target, sel)) = fuzz_target_of(id) else { return Ok(None) };
+    let fuzz_dir = format!("{verif}/fuzz");
+    let st = Command::new("cargo")
+        .args(["+nightly", "fuzz", "build", "--fuzz-dir", &fuzz_dir, target])
+        .env("CARGO_NET_OFFLINE", "true")
+        .current_dir(&fuzz_dir)
+        .stdout(Stdio::null())
+        .stderr(Stdio::piped())
+        .output()
+        .map_err(|e| format!("cannot run cargo fuzz: {e}"))?;
+    if !st.status.success() {
+        let err = String::from_utf8_lossy(&st.stderr);
+        let tail: Vec<&str> = err.lines().rev().take(15).collect();
+        return Err(format!("cargo +nightly fuzz build failed:\n{}", tail.into_iter().rev().collect::<Vec<_>>().join("\n")));
+    }
+    let bin = format!("{fuzz_dir}/target/x86_64-unknown-linux-gnu/release/{target}");
+    if !std::path::Path::new(&bin).exists() {
+        return Err(format!("fuzz binary {bin} missing"));
+    }
+    let work = format!("{verif}/work/fuzz-{id}");
+    let _ = std::fs::remove_dir_all(&work);
+    std::fs::create_dir_all(&work).map_err(|e| e.to_string())?;
+    let seeds = format!("{fuzz_dir}/seeds/{target}");
+    let mut children = vec![];
+    for j in 0..jobs {
+        let corpus = format!("{work}/corpus-{j}");
+        std::fs::create_dir_all(&corpus).unwrap();
+        let mut cmd = Command::new(&bin);
+        cmd.arg(&corpus);
+        if j % 2 == 0 && std::path::Path::new(&seeds).is_dir() {
+            cmd.arg(&seeds);
+        }
+        cmd.args([
+            &format!("-max_total_time={seconds}"),
+            &format!("-seed={}", seed.wrapping_mul(1000).wrapping_add(j as u64 + 1)),
+            "-len_control=0",
+            "-max_len=4096",
+            "-print_final_stats=1",
+            "-timeout=30",
+            "-rss_limit_mb=3000",
+            &format!("-artifact_prefix={work}/art-{j}-"),
+        ]);
+        if let Some(s) = sel {
+            cmd.env("VERIF_HIST_SEL", s.to_string());
+        }
+        cmd.stdout(Stdio::null()).stderr(Stdio::piped());
+        children.push((j, cmd.spawn().map_err(|e| format!("cannot start {bin}: {e}"))?));
+    }
+    let mut stats = FuzzStats { target: target.to_string(), jobs, seconds, execs: 0, crashes: vec![], corpus_files: 0, features: 0 };
+    for (j, c) in children {
+        let out = c.wait_with_output().map_err(|e| e.to_string())?;
+        let err = String::from_utf8_lossy(&out.stderr);
+        for l in err.lines() {
+            if let Some(v) = l.strip_prefix("stat::number_of_executed_units:") {
+                stats.execs += v.trim().parse::<u64>().unwrap_or(0);
+            }
+        }
+        // last "ft:" figure of the log
+        if let Some(ft) = err.lines().rev().find_map(|l| l.split("ft: ").nth(1).and_then(|r| r.split_whitespace().next()).and_then(|x| x.parse::<u64>().ok())) {
+            stats.features = stats.features.max(ft);
+        }
+        stats.corpus_files += std::fs::read_dir(format!("{work}/corpus-{j}")).map(|d| d.count()).unwrap_or(0);
+        if !out.status.success() {
+            // a crash, a timeout, or an out-of-memory: only VERIF-VIOLATION panics count
+            let ours = err.contains("VERIF-VIOLATION");
+            let arts: Vec<_> = std::fs::read_dir(&work)
+                .map(|d| d.filter_map(|e| e.ok()).map(|e| e.path()).filter(|p| p.file_name().and_then(|n| n.to_str()).map(|n| n.starts_with(&format!("art-{j}-"))).unwrap_or(false)).collect())
+                .unwrap_or_default();
+            if ours || err.contains("panicked at") {
+                for a in arts {
+                    let n = stats.crashes.len();
+                    let dir = format!("{verif}/replays/{id}");
+                    let _ = std::fs::create_dir_all(&dir);
+                    let dst = format!("{dir}/fuzz-{target}-{seed}-{j}-{n}.bin");
+                    let _ = std::fs::copy(&a, &dst);
+                    stats.crashes.push(dst);
+                }
+                if let Some(l) = err.lines().find(|l| l.contains("VERIF-VIOLATION") || l.contains("panicked at")) {
+                    let mut l = l.to_string();
+                    l.truncate(700);
+                    println!("--- fuzz job {j}: {l}");
+                }
+            } else {
+                eprintln!("fuzz job {j} ended with {} without a violation (timeout / OOM / signal): inconclusive", out.status);
+            }
+        }
+    }
+    let _ = std::fs::remove_dir_all(&work);
+    Ok(Some(stats))
+}
+
 fn run_main(id: &str, tier: Tier) -> i32 {
     let verif = verif_root();
     let t0 = Instant::now();
@@ -259,6 +426,50 @@ fn run_main(id: &str, tier: Tier) -> i32 {
             printed += 1;
         }
     }
+    // thorough tier: coverage-guided campaign on the property's fuzz target
+    let mut fuzz_json = serde_json::Value::Null;
+    let fuzz_secs: u64 = std::env::var("VERIF_FUZZ_SECS").ok().and_then(|s| s.parse().ok()).unwrap_or(match tier {
+        Tier::Quick => 0,
+        Tier::Thorough => if matches!(id, "C01" | "C02" | "C03" | "C04") { 120 } else { 60 },
+    });
+    if fuzz_secs > 0 && printed == 0 {
+        match fuzz_campaign(&verif, id, seed, fuzz_secs, total_workers) {
+            Ok(Some(fs)) => {
+                // every crash file is confirmed through the stable in-process path first
+                let mut confirmed = 0;
+                for c in &fs.crashes {
+                    let data = std::fs::read(c).unwrap_or_default();
+                    if let Some((_, Some(sel))) = fuzz_target_of(id) {
+                        std::env::set_var("VERIF_HIST_SEL", sel.to_string());
+                    }
+                    let t = fs.target.clone();
+                    let (r, _) = on_fresh_thread(move || run_fuzz_input(&t, &data));
+                    if let Some((f, _)) = r {
+                        if seen.insert(f.sig.clone()) {
+                            println!("--- {} (fuzz {}): {}", f.sig, fs.target, &f.msg[..f.msg.len().min(1200)]);
+                            println!("VIOLATION property={} replay={}", id, c);
+                            printed += 1;
+                        }
+                        confirmed += 1;
+                    } else {
+                        eprintln!("fuzz crash file {c} does not reproduce in-process (debug-assertion-only or flaky): not reported");
+                    }
+                }
+                fuzz_json = serde_json::json!({
+                    "target": fs.target, "jobs": fs.jobs, "seconds_per_job": fs.seconds,
+                    "executions": fs.execs, "corpus_files": fs.corpus_files, "features": fs.features,
+                    "crash_files": fs.crashes.len(), "confirmed_violations": confirmed,
+                    "note": "wall-clock bounded; hitting the budget means nothing was found in what was explored",
+                });
+                evaluations += fs.execs;
+            }
+            Ok(None) => {}
+            Err(e) => {
+                eprintln!("fuzz campaign could not run (infrastructure): {e}");
+                return 2;
+            }
+        }
+    }
     let wall = t0.elapsed().as_secs_f64();
     let ev = serde_json::json!({
         "property_id": id,
@@ -280,6 +491,7 @@ fn run_main(id: &str, tier: Tier) -> i32 {
             "known_finding_hits": known_hits,
             "profiles": profiles,
             "workers_per_profile": per,
+            "fuzz": fuzz_json,
         },
         "assumptions": assumptions,
         "wall_s": wall,
@@ -347,6 +559,7 @@ fn main() {
             let id = args[1].clone();
             dispatch!(id.as_str(), replay_main, &args[2])
         }
+        "replay-bin" => replay_bin_main(&args[1], &args[2]),
         "sample" => {
             let id = args[1].clone();
             let n: usize = args.get(2).and_then(|s| s.parse().ok()).unwrap_or(5);
